@@ -160,6 +160,38 @@ def search_lru_dirname(mod):
     return None
 
 
+def search_header_init(mod):
+    """LRUTrieHeader(storage) on an existing store leaves block 0 alone and loads it
+    (whatever version string it holds); on an empty store it writes a zero header"""
+    import importlib
+    import struct
+
+    H = importlib.import_module("traph.lru_trie.header")
+    M = importlib.import_module("traph.storage.memory").MemoryStorage
+    for ver in (b"0.0.0", b"9.9.9-old", None):
+        for last in (0, 1, 5, 300, 2 ** 32 - 2):
+            st = M(128)
+            if ver is not None:
+                st.write(struct.pack(H.LRU_TRIE_HEADER_FORMAT, last, ver))
+                st.write(struct.pack("75pBI6Q", b"a|", 0, 0, 0, 0, 0, 0, 0, 0))
+            before = bytes(st.array)
+            try:
+                h = H.LRUTrieHeader(st)
+            except Exception as e:
+                return {"input": {"stored_version": repr(ver), "stored_last_id": last}, "observed": "raised %r" % (e,), "expected": "no exception"}
+            after = bytes(st.array)
+            if ver is not None:
+                if after != before:
+                    return {"input": {"stored_version": repr(ver), "stored_last_id": last}, "observed": "block 0 rewritten on open: %r -> %r" % (before[:20], after[:20]), "expected": "store untouched"}
+                if h.last_webentity_id() != last:
+                    return {"input": {"stored_version": repr(ver), "stored_last_id": last}, "observed": "loaded counter %r" % (h.last_webentity_id(),), "expected": last}
+            else:
+                if len(after) != 128 or h.last_webentity_id() != 0 or struct.unpack(H.LRU_TRIE_HEADER_FORMAT, after)[0] != 0:
+                    return {"input": {"store": "empty"}, "observed": "%d bytes, counter %r" % (len(after), h.last_webentity_id()), "expected": "one zero header block"}
+                break
+    return None
+
+
 def search_add_page_ladder(mod):
     """Traph.__add_page against the statement of C06 on a few rule configurations"""
     import re
@@ -217,6 +249,7 @@ def search_add_page_ladder(mod):
 SEARCHES = {
     "lru_iter": search_lru_iter,
     "lru_dirname": search_lru_dirname,
+    "LRUTrieHeader.__init__": search_header_init,
     "Traph.__add_page": search_add_page_ladder,
     "detailed_chunks_iter": search_detailed_chunks_iter,
     "https_variation": search_https_variation,
